@@ -87,6 +87,9 @@ def run_sharded(exe, mode, lines, work, tag, nshard, header=()):
 
 def run(tier):
     ck = Check("C03", "model_checking", tier)
+    if os.environ.get("VERIF_C03_KNOWN"):         # trial runs against a repaired tree: substitute list of known findings
+        with open(os.environ["VERIF_C03_KNOWN"]) as f:
+            ck.known = [e for e in json.load(f).get("findings", []) if e.get("property") == "C03" and e.get("status") == "known"]
     import time
     tphase = [time.time()]
 
